@@ -616,7 +616,11 @@ func relaxedScript(script string) string {
 	var out []string
 	for i, l := range lines {
 		if i != last && strings.HasPrefix(l, "(assert ") && (strings.Contains(l, "(forall ") || strings.Contains(l, "(exists ")) {
-			continue
+			// the definition of the index-addition symbol (ix_ a b) = a + b is kept: it is a definition,
+			// has its own trigger, and without it no fact about slice elements is usable
+			if !strings.Contains(l, "(ix_ a b)") {
+				continue
+			}
 		}
 		out = append(out, l)
 	}
